@@ -909,6 +909,12 @@ func (s *TxStore) Rollback(tx mwdb.DBTransaction, height uint64) error {
 					return err
 				}
 
+				if _, ok := allMined[ma.Account()]; !ok {
+					// no balance row: the wallet is being removed, its unspent,
+					// balance and history rows are gone and must not come back
+					continue
+				}
+
 				unspentVal, err := fetchNsUnspentValueFromRawCredit(credKey)
 				if err != nil {
 					return err
@@ -1048,6 +1054,10 @@ func (s *TxStore) Rollback(tx mwdb.DBTransaction, height uint64) error {
 					}
 				}
 				// check and delete game history
+				if _, ok := allMined[ma.Account()]; !ok {
+					// the wallet is being removed, see above
+					continue
+				}
 				if ps.IsStaking() || ps.IsBinding() {
 					history := &gameHistory{
 						walletId:    ma.Account(),
